@@ -69,6 +69,40 @@ def check(ctx, rep):
     # ---------------- derivation
     fn = IC + "::new"
     se = ctx.wrap.run(fn)
+    dir_keys = {}           # direction given as a variant of a private enum: variant index -> HMAC key constant
+    dir_enum = None
+    if se is not None:
+        p2 = se.body.local_ty(2)
+        p2 = p2.peel_refs() if p2 is not None else None
+        if p2 is not None and p2.k == "adt" and p2.path in fb.adts and fb.adts[p2.path].get("kind") == "Enum":
+            # `InnerCrypto::new(session_key, Direction::X)`: the constructor restricted to each
+            # variant (the other arms of its match on the direction pruned) is decided on its own
+            dir_enum = p2.path
+            sws = [(bb, i) for bb, i in se.term_info.items() if i.get("k") == "switch" and strip(i["discr"]) == ("discr", ("param", 2))]
+            runs = []
+            if len(sws) == 1:
+                sb, si_ = sws[0]
+                tg = dict(si_["targets"])
+                for vi, v_ in enumerate(fb.adts[dir_enum]["variants"]):
+                    dv = int(v_.get("discr", vi))
+                    tgt = tg.get(dv, si_["otherwise"])
+                    nm = fb.pruned(fn, "dir%d" % vi, {sb: tgt})
+                    rs = ctx.wrap.run(nm) if nm else None
+                    if rs is not None:
+                        runs.append((vi, rs))
+            if len(runs) == len(fb.adts[dir_enum]["variants"]) and runs:
+                for vi, rs in runs:
+                    r_ = strip(rs.ret)
+                    if r_[0] == "agg" and r_[2] == IC and len(r_[4]) == 1:
+                        v_ = r_[4][0]
+                        base = v_[3] if v_[0] == "after" else v_
+                        if util.is_call(base, "rc4::Rc4::new"):
+                            kb = util.bexpr(ctx, rs, base[2][0])
+                            if kb[0] == "HMAC" and kb[1][0] == "const" and len(kb[1][1]) == 16 and kb[2] == (P(1),):
+                                dir_keys[vi] = kb[1][1]
+                se = runs[0][1]         # the remaining derivation obligations on one restricted run
+            else:
+                rep.violation("derivation", fn, "direction-enum", "the constructor takes the direction as %s but does not select the HMAC key by one match on it" % dir_enum, se.body.loc())
     if se is None:
         rep.violation("derivation", fn, "anchor", "not found")
     else:
@@ -80,7 +114,9 @@ def check(ctx, rep):
             # after<apply_keystream(rc4, pad)>(Rc4::new(hmac bytes))
             if v[0] == "after" and util.is_call(v[1], "rc4::Rc4::apply_keystream") and v[2] == 0 and util.is_call(v[3], "rc4::Rc4::new"):
                 key = util.bexpr(ctx, se, v[3][2][0])
-                want = ("HMAC", P(2), (P(1),))
+                want = ("HMAC", P(2), (P(1),)) if dir_enum is None else ("HMAC", ("const", dir_keys.get(0, b"")), (P(1),))
+                if dir_enum is not None and len(dir_keys) != len(fb.adts[dir_enum]["variants"]):
+                    want = ("?",)
                 rep.check(key == util.cb(want), "derivation", fn, "hmac-key", "RC4 key = all bytes of HMAC-SHA1(key = direction constant; session key)", "RC4 key is %s, expected HMAC-SHA1(key=arg2; arg1)" % show_b(key)[:300], se.body.loc())
                 site = v[1][3][:2]
                 pad = se.call_old.get((site, 1))
@@ -94,7 +130,9 @@ def check(ctx, rep):
             # or: a helper that advances the keystream n times, called with the constant 1024
             elif v[0] == "after" and util.is_call(v[1]) and v[2] == 0 and util.is_call(v[3], "rc4::Rc4::new") and skip_helper(ctx, v[1][1]) is not None:
                 key = util.bexpr(ctx, se, v[3][2][0])
-                want = ("HMAC", P(2), (P(1),))
+                want = ("HMAC", P(2), (P(1),)) if dir_enum is None else ("HMAC", ("const", dir_keys.get(0, b"")), (P(1),))
+                if dir_enum is not None and len(dir_keys) != len(fb.adts[dir_enum]["variants"]):
+                    want = ("?",)
                 rep.check(key == util.cb(want), "derivation", fn, "hmac-key", "RC4 key = all bytes of HMAC-SHA1(key = direction constant; session key)", "RC4 key is %s, expected HMAC-SHA1(key=arg2; arg1)" % show_b(key)[:300], se.body.loc())
                 kparam = skip_helper(ctx, v[1][1])
                 amount = strip(v[1][2][kparam - 1]) if kparam - 1 < len(v[1][2]) else ("?",)
@@ -106,7 +144,9 @@ def check(ctx, rep):
             # closure behind it yields Some on every call (PRGA rule), so take(1024) runs it 1024 times
             elif v[0] == "after" and util.is_call(v[1]) and v[1][1] in ("std::iter::from_fn", "core::iter::from_fn") and v[2] == 0 and util.is_call(v[3], "rc4::Rc4::new") and prga_closure(ctx) is not None:
                 key = util.bexpr(ctx, se, v[3][2][0])
-                want = ("HMAC", P(2), (P(1),))
+                want = ("HMAC", P(2), (P(1),)) if dir_enum is None else ("HMAC", ("const", dir_keys.get(0, b"")), (P(1),))
+                if dir_enum is not None and len(dir_keys) != len(fb.adts[dir_enum]["variants"]):
+                    want = ("?",)
                 rep.check(key == util.cb(want), "derivation", fn, "hmac-key", "RC4 key = all bytes of HMAC-SHA1(key = direction constant; session key)", "RC4 key is %s, expected HMAC-SHA1(key=arg2; arg1)" % show_b(key)[:300], se.body.loc())
                 ff = strip(v[1])
                 users = [i for i in se.term_info.values() if i.get("k") == "call" and any(strip(a) == ff for a in i["args"])]
@@ -126,8 +166,10 @@ def check(ctx, rep):
                 good = True
         if not good:
             rep.violation("derivation", fn, "shape", "constructor is not Rc4::new(hmac) followed by one discarded keystream application: " + desc, se.body.loc())
-        sig = [fb.ty(i).s for i in se.body.d["inputs"]]
-        rep.check(sig == ["[u8; 40]", "&[u8; 16]"], "derivation", fn, "widths", "(session key [u8;40], constant &[u8;16])", "parameter types %s" % sig)
+        sig = [fb.ty(i).peel_refs().s for i in se.body.d["inputs"]]
+        if dir_enum is not None and len(sig) == 2 and sig[1] == dir_enum and all(len(v) == 16 for v in dir_keys.values()):
+            sig[1] = "[u8; 16]"         # the 16-byte constant comes with the variant
+        rep.check(sig == ["[u8; 40]", "[u8; 16]"], "derivation", fn, "widths", "(session key [u8; 40], constant [u8; 16]), by value or by reference", "parameter types %s" % [fb.ty(i).s for i in se.body.d["inputs"]])
     # apply = keystream
     ase = ctx.wrap.run(IC + "::apply")
     if ase is not None:
@@ -158,6 +200,8 @@ def check(ctx, rep):
                     c = strip(o[2][1])
                     if c[0] == "bytes":
                         got = c[1]
+                    elif c[0] == "agg" and c[1] == "adt" and dir_enum is not None and c[2] == dir_enum and isinstance(c[3], int):
+                        got = dir_keys.get(c[3])
         seen[half] = got
         rep.check(got == want and keyarg == ("param", 1), "direction", fn, direction, "InnerCrypto::new(session key, %s constant %s..)" % (direction, want[:4].hex()), "%s is keyed with constant %s (session key operand %s); the %s constant is %s" % (half, got.hex() if got else "?", show(keyarg) if keyarg else "?", direction, want.hex()), se.body.loc())
         # the half's raw operation is InnerCrypto::apply on that field
